@@ -121,6 +121,10 @@ func runPartB(c *worker.Ctx) {
 	src.WriteString("sub vcl_recv {\n  #FASTLY RECV\n")
 	for i := 0; i < np; i++ {
 		p := &pluginPlan{Name: fmt.Sprintf("falco-p%d", i), Fate: "ok", K: c.T.Draw(4), Latency: time.Duration(c.T.Draw(2000)) * time.Millisecond}
+		if c.T.Bool(1, 12) {
+			// a chatty plugin: counts around and beyond any plausible internal buffer
+			p.K = []int{31, 32, 33, 63, 64, 65, 100, 257}[c.T.Draw(8)]
+		}
 		if faulty {
 			p.Fate = fates[c.T.Draw(len(fates))]
 		}
